@@ -84,15 +84,30 @@ FlowOutcomes(r, n, t, st) ==
                       ELSE {b}
 
 (* ---- hotspot throttling (ms) ---- *)
+\* The per-value schedule of a rule lives in an LRU cache of CapOf(r) entries.  Every decision except the one
+\* for q = 0 makes the value the most recent one (a rejection too); a new value arriving at a full cache
+\* evicts the least recent one, which then starts afresh.  The recency order (least recent first) is kept
+\* under the reserved key LruKey next to the values.  Within the capacity nothing is ever evicted.
+LruKey == "<lru>"
+Vals(hl) == DOMAIN hl \ {LruKey}
+Order(hl) == IF LruKey \in DOMAIN hl THEN hl[LruKey] ELSE <<>>
+CapOf(r) == IF r.cap > 0 THEN r.cap ELSE IF 4000 * r.dur < 20000 THEN 4000 * r.dur ELSE 20000
+Touch(r, hl, v, tm) ==
+    LET ord == Order(hl)
+        full == v \notin Vals(hl) /\ Len(ord) >= CapOf(r)
+        rest == SelectSeq(IF full THEN Tail(ord) ELSE ord, LAMBDA x : x # v)
+        keep == IF full THEN Vals(hl) \ {Head(ord)} ELSE Vals(hl)
+    IN  (v :> tm) @@ (LruKey :> Append(rest, v)) @@ [x \in keep |-> hl[x]]
+
 HotOutcomes(r, v, n, tms, hl) ==
     LET q == HotQ(r, v) IN
     IF q = 0 THEN {[res |-> "block", wait |-> 0, hl |-> hl]}
-    ELSE IF v \notin DOMAIN hl THEN {[res |-> "pass", wait |-> 0, hl |-> (v :> tms) @@ hl]}
+    ELSE IF v \notin Vals(hl) THEN {[res |-> "pass", wait |-> 0, hl |-> Touch(r, hl, v, tms)]}
     ELSE LET exp == hl[v] + HotIv(r, v, n)
              w == exp - tms
-             p == [res |-> "pass", wait |-> 0, hl |-> (v :> tms) @@ hl]
-             qd == [res |-> "queue", wait |-> w, hl |-> (v :> exp) @@ hl]
-             b == [res |-> "block", wait |-> 0, hl |-> hl]
+             p == [res |-> "pass", wait |-> 0, hl |-> Touch(r, hl, v, tms)]
+             qd == [res |-> "queue", wait |-> w, hl |-> Touch(r, hl, v, exp)]
+             b == [res |-> "block", wait |-> 0, hl |-> Touch(r, hl, v, hl[v])]
          IN  IF w <= 0 THEN {p}
              ELSE IF w < r.maxq THEN {qd}
              ELSE IF w = r.maxq THEN {qd, b}
@@ -208,5 +223,5 @@ BoundedQueue ==
     /\ \A r \in FlowRules :
           flast[r.id].fresh \/ Leq(flast[r.id].last, Add(now, Ms(r.maxq)))
     /\ \A res \in DOMAIN hrule : LET r == hrule[res] IN
-          \A v \in DOMAIN hlast[r.id] : hlast[r.id][v] <= now[1] + r.maxq
+          \A v \in Vals(hlast[r.id]) : hlast[r.id][v] <= now[1] + r.maxq
 =============================================================================
